@@ -962,7 +962,9 @@ impl LineBuf {
 			SelectRange::OneDim((start,end)) => {
 				match self.select_mode.as_ref().unwrap() {
 					SelectMode::Char(_) => {
-						let slice = self.slice_inclusive(start..=end + 1)?;
+						// The cursor may sit at the end of the text in visual mode
+						let end = (end + 1).min(self.cursor.max);
+						let slice = self.slice_inclusive(start..=end)?;
 						Some(slice.to_string())
 					}
 					SelectMode::Line(_) => {
